@@ -15,7 +15,7 @@ Trace == ndJsonDeserialize("trace.ndjson")
 VARIABLES cur,        \* snapshot of the target path
           by,         \* the package string the current content was written for by init, or None
           parentOK,   \* the directory of the target path exists
-          gop,        \* the Go packages of the world: sequence of [s |-> path, ifaces |-> <<names>>]
+          gop,        \* the Go packages of the world: sequence of [s |-> path, ifaces |-> <<names>>, may |-> <<names>>, files |-> <<file classes>>]
           ran,        \* package strings a plain run was already attempted for
           skipping,   \* the current case was rejected: its remaining events are skipped
           rej,        \* indices (1-based) of the events the contract rejected, one per rejected case
@@ -83,10 +83,12 @@ GoIdx(s) == {i \in 1..Len(gop) : gop[i].s = s}
 RunOK ==
   /\ Ev.before = cur
   /\ LET isPkg == GoIdx(by) # {}
-         ifs == IF isPkg THEN ToSet(gop[CHOOSE i \in GoIdx(by) : TRUE].ifaces) ELSE {}
-         may == IF isPkg THEN ToSet(gop[CHOOSE i \in GoIdx(by) : TRUE].may) ELSE {}
+         g == gop[CHOOSE i \in GoIdx(by) : TRUE]
+         \* a package given by its source files (g.files: file classes): what it declares is worked out here
+         ifs == IF isPkg THEN ToSet(g.ifaces) \cup FilesIfaces(ToSet(g.files)) ELSE {}
+         may == IF isPkg THEN ToSet(g.may) \cup FilesMay(ToSet(g.files)) ELSE {}
          e == RunExpect(by, isPkg, ifs, may, by \in ran)
-     IN e.judged => (Ev.exit = 0) = e.ok /\ MockedOK(e, ToSet(Ev.mocked))
+     IN e.judged => (Ev.exit = 0) = e.ok /\ MockedOK(e, ToSet(Ev.mocked)) /\ MockedOnce(Ev.mocked)
 CRun ==
   /\ cur' = Ev.after
   /\ by' = IF Ev.after = Ev.before THEN by ELSE None
